@@ -880,6 +880,7 @@ func checkC09(c *Ctx, r *Report) {
 		"R2 the fallbacks exist and are wired: every fetch entry of dedupFetch (coalesced and non-coalesced) maps ErrNotCacheable to fetchDirectlyFromUpstream(req)",
 		"R3 every cache function releases each lock it takes on every exit (a leaked shard lock hangs all later requests of that shard)",
 		"R4 sibling cross-check: whether a backend refuses an empty body is reported (memory accepts, file refuses) and is covered by R1's fallback",
+		"R5 neither backend holds a shard lock while it copies the origin body (io.Copy / ReadAll of the response reader): a slow origin cannot stall the other requests of the same shard",
 	}
 	r.NotDec = []string{"hangs and dropped connections caused by the transport", "a second origin request being observable by the origin (the fallback re-fetches)", "panics (C16)"}
 	li := BuildLocks(c)
